@@ -6,6 +6,7 @@ import (
 	"fmt"
 	"os"
 	"path/filepath"
+	"runtime/debug"
 	"sort"
 	"strconv"
 	"strings"
@@ -57,7 +58,23 @@ func Register[C any](f *Facet[C]) *Facet[C] {
 	return f
 }
 
+// journal records the case about to be checked when the driver re-runs a shard that died (fatal Go
+// error, stack exhaustion, out of memory): the last entry is then the culprit.
+func journal(facet string, c interface{}) {
+	path := os.Getenv("VERIF_JOURNAL")
+	if path == "" {
+		return
+	}
+	raw, err := json.Marshal(c)
+	if err != nil {
+		return
+	}
+	b, _ := json.Marshal(&failure{Property: property, Facet: facet, Case: raw, Fail: "the test process died (fatal Go error, stack exhaustion or out of memory) while this case was being checked"})
+	_ = os.WriteFile(path, b, 0o644)
+}
+
 func (f *Facet[C]) safeCheck(c C) (o Outcome) {
+	journal(f.Name, c)
 	defer func() {
 		if p := recover(); p != nil {
 			if _, ok := p.(BudgetSentinel); ok {
@@ -230,6 +247,7 @@ func replayFile(path string) (bool, string, error) {
 func Main(m *testing.M, prop string) {
 	property = prop
 	rec.property = prop
+	debug.SetMaxStack(512 << 20) // unbounded Go recursion dies after 512 MB instead of 1 GB
 	flag.Parse()
 	if w := os.Getenv("VERIF_WORKER"); w != "" {
 		serveWorker(w)
